@@ -19,7 +19,9 @@
    no waiter stays blocked while the count is positive                 semaphore_no_waiter_blocked_while_positive  [P]
    Signal: wait true only if set since last reset                      signal_wait_true_only_if_set                [L]
    no waiter stays blocked while it remains set                        signal_no_waiter_blocked_while_set          [L]
-   set releases all current waiters                                    signal_set_releases_all_waiters             [L]
+   set releases all current waiters                                    signal_set_releases_all_waiters,            [L]
+                                                                       signal_set_broadcasts_under_mutex,
+                                                                       signal_set_unlock_is_last
    successful Monitor waits never outnumber set() calls                monitor_waits_le_sets                       [L]
    a set() after a waiter took the monitor releases a waiter           monitor_set_releases_a_waiter,              [L]
                                                                        monitor_woken_waiter_returns_true,
@@ -41,6 +43,15 @@
    thread has an enabled step that ends it (the schedulers of the model are arbitrary, so no fairness
    is assumed or needed for these statements).
    The OS primitives themselves are modelled (Sched.v) - trusted base, see level_note of checks/C11.py.
+
+   Program order of Signal::set (round 3): the code is lock; signaled = true; broadcast; unlock (fixes/C10/04: the
+   broadcast moved in front of the unlock, so that set() touches nothing of the Signal once a waiter can own the
+   mutex).  The two Signal liveness theorems were stated for the old order lock; flag; unlock; broadcast and are
+   restated, none weaker: signal_no_waiter_blocked_while_set named "a setter between the flag write and the
+   broadcast" as pc = SigSetUnlock or SigSetBcast; that window is now the single point SigSetBcast.
+   signal_set_releases_all_waiters holds at the broadcast step as before; the woken waiters then need the mutex,
+   which the setter holds until its unlock, an enabled step (signal_set_broadcasts_under_mutex) after which set()
+   returns without another primitive call (signal_set_unlock_is_last).
 
    History of the Monitor clause: with TimeoutSteal in the primitive model, Monitor::wait(timeout) as it stood
    (return false on a non-zero return code without looking at the flag) refutes monitor_set_releases_a_waiter:
@@ -112,7 +123,7 @@ Print Assumptions signal_wait_true_only_if_set.
 Theorem signal_no_waiter_blocked_while_set : forall scripts started s0 v0 sched, 0 <= v0 -> forall u,
   let w := reach scripts started s0 v0 sched in
   sigf w = true -> blocked_on SC (st (ps w) u) = true ->
-  exists v, (pc (tc w v) = SigSetUnlock \/ pc (tc w v) = SigSetBcast) /\ enabled w v = true.
+  exists v, pc (tc w v) = SigSetBcast /\ enabled w v = true.
 Proof. exact signal_no_waiter_blocked_while_set_l. Qed.
 Print Assumptions signal_no_waiter_blocked_while_set.
 
@@ -121,6 +132,23 @@ Theorem signal_set_releases_all_waiters : forall scripts started s0 v0 sched, 0 
   pc (tc w t) = SigSetBcast -> forall u, blocked_on SC (st (ps (step w (Run t))) u) = false.
 Proof. exact signal_set_releases_all_waiters_l. Qed.
 Print Assumptions signal_set_releases_all_waiters.
+
+(* the setter owns the internal mutex at its broadcast and until its unlock; both steps are enabled *)
+Theorem signal_set_broadcasts_under_mutex : forall scripts started s0 v0 sched, 0 <= v0 -> forall t,
+  let w := reach scripts started s0 v0 sched in
+  pc (tc w t) = SigSetBcast \/ pc (tc w t) = SigSetUnlock ->
+  m_owner (mtx (ps w) SM) = Some t /\ enabled w t = true.
+Proof. exact signal_set_broadcasts_under_mutex_l. Qed.
+Print Assumptions signal_set_broadcasts_under_mutex.
+
+(* the unlock is the last primitive call of set(): the step that performs it returns from the library call *)
+Theorem signal_set_unlock_is_last : forall scripts started s0 v0 sched, 0 <= v0 -> forall t,
+  let w := reach scripts started s0 v0 sched in
+  pc (tc w t) = SigSetUnlock ->
+  let w' := step w (Run t) in
+  pc (tc w' t) = Idle /\ trace w' = EvRet t SigSet 0 :: trace w.
+Proof. exact signal_set_unlock_is_last_l. Qed.
+Print Assumptions signal_set_unlock_is_last.
 
 (* ---------------- Monitor ---------------- *)
 Theorem monitor_waits_le_sets : forall scripts started s0 v0 sched, 0 <= v0 ->
@@ -198,19 +226,27 @@ Definition runs (t : tid) (n : nat) : list move := repeat (Run t) n.
 Definition sc3 (a b c : list libcall) (t : tid) : list libcall :=
   match t with O => a | S O => b | S (S O) => c | _ => [] end.
 
-(* Signal: two waiters blocked, the setter has written the flag and not yet broadcast: the premise of
-   signal_no_waiter_blocked_while_set holds; afterwards both waits return true *)
+(* Signal: two waiters blocked, the setter has written the flag and not yet broadcast (it stands at the broadcast,
+   holding the mutex): the premises of signal_no_waiter_blocked_while_set, signal_set_releases_all_waiters and
+   signal_set_broadcasts_under_mutex hold; one step later nobody is blocked on the condition, both waiters are woken
+   and wait for the mutex the setter still owns at its unlock (premise of signal_set_unlock_is_last); afterwards both
+   waits return true *)
 Definition sig_sc := sc3 [SigWait] [SigSet] [SigWait].
 Definition sig_mid := reach sig_sc all_started false 0 (runs 0%nat 3%nat ++ runs 2%nat 3%nat ++ runs 1%nat 2%nat).
 Example ex_signal_blocked_while_set :
-  (sigf sig_mid, blocked_on SC (st (ps sig_mid) 0%nat), blocked_on SC (st (ps sig_mid) 2%nat), pc (tc sig_mid 1%nat))
-  = (true, true, true, SigSetUnlock).
+  (sigf sig_mid, blocked_on SC (st (ps sig_mid) 0%nat), blocked_on SC (st (ps sig_mid) 2%nat), pc (tc sig_mid 1%nat),
+   m_owner (mtx (ps sig_mid) SM))
+  = (true, true, true, SigSetBcast, Some 1%nat).
 Proof. vm_compute. reflexivity. Qed.
 Example ex_signal_waits_return_true :
   trace (reach sig_sc all_started false 0 (runs 0%nat 3%nat ++ runs 2%nat 3%nat ++ runs 1%nat 4%nat ++ runs 0%nat 2%nat ++ runs 2%nat 2%nat))
   = [EvRet 2%nat SigWait 1; EvRet 0%nat SigWait 1; EvRet 1%nat SigSet 0; EvSigWrite 1%nat true].
 Proof. vm_compute. reflexivity. Qed.
-Example ex_signal_bcast_point : pc (tc (reach sig_sc all_started false 0 (runs 0%nat 3%nat ++ runs 2%nat 3%nat ++ runs 1%nat 3%nat)) 1%nat) = SigSetBcast.
+Definition sig_woken := reach sig_sc all_started false 0 (runs 0%nat 3%nat ++ runs 2%nat 3%nat ++ runs 1%nat 3%nat).
+Example ex_signal_unlock_point :
+  (pc (tc sig_woken 1%nat), m_owner (mtx (ps sig_woken) SM), st (ps sig_woken) 0%nat, st (ps sig_woken) 2%nat,
+   enabled sig_woken 0%nat, enabled sig_woken 1%nat)
+  = (SigSetUnlock, Some 1%nat, TWoken SM 0 None, TWoken SM 0 None, false, true).
 Proof. vm_compute. reflexivity. Qed.
 
 (* Monitor: a waiter took the monitor and blocked, then set() wrote the flag: premise of
